@@ -36,6 +36,7 @@ type Loc struct {
 	Ref    string // Int term: object reference (field) or backing-array reference (elem)
 	Idx    string // Int term, elem only
 	T      types.Type
+	Owner  types.Type // field: pointer type of the owning struct
 }
 
 type Tuple []interface{}
